@@ -616,6 +616,39 @@ Section PW.
         + pose proof (Good_val_inv _ _ _ Gr) as ->. destruct Hw as [E|E]; [discriminate|inversion E].
       - intros ->. apply Good_nil_inv in HG. contradiction.
     Qed.
+
+    (* conversely: a coherent working trie that denotes t and whose followed nodes are all in Old is Good *)
+    Lemma Good_of_coherent : forall p n t, WRes V g p n t -> Coh V g p n ->
+      (forall q w b, Reach V g p (enc_child V n) q w b -> Old q w b) -> Good p n t.
+    Proof.
+      apply (WRes_mut V g
+        (fun p n t _ => Coh V g p n -> (forall q w b, Reach V g p (enc_child V n) q w b -> Old q w b) -> Good p n t)
+        (fun p i cs cts _ => CohL V g p i cs ->
+           (forall j c q w b, nth_error cs j = Some c -> Reach V g (p ++ [i + j]) (enc_child V c) q w b -> Old q w b) ->
+           GoodL p i cs cts)).
+      - intros; constructor.
+      - intros; constructor.
+      - intros p k c f c' _ IH HC HR. inversion HC as [| | |p0 k0 c0 f0 Hk Hcc Hf|]; subst.
+        assert (Inner : forall q w b, Reach V g p (enc V (WShort k c f)) q w b -> Old q w b).
+        { intros q w b R. apply HR. destruct f as [|v]; cbn [enc_child]; [exact R|].
+          eapply Reach_below; [apply (Hf v eq_refl)|exact R]. }
+        constructor; auto.
+        + apply IH; auto. intros q w b R. apply Inner. rewrite enc_short. apply Reach_short. exact R.
+        + intros v Ev. subst f. apply HR. cbn [enc_child]. apply Reach_here. apply (Hf v eq_refl).
+      - intros p cs f cs' _ IH HC HR. inversion HC as [| | | |p0 cs0 f0 Hcc Hf]; subst.
+        assert (Inner : forall q w b, Reach V g p (enc V (WFull cs f)) q w b -> Old q w b).
+        { intros q w b R. apply HR. destruct f as [|v]; cbn [enc_child]; [exact R|].
+          eapply Reach_below; [apply (Hf v eq_refl)|exact R]. }
+        constructor; auto.
+        + apply IH; auto. intros j c q w b Hj R. apply Inner. rewrite enc_full.
+          eapply Reach_full; [apply map_nth_error; exact Hj|exact R].
+        + intros v Ev. subst f. apply HR. cbn [enc_child]. apply Reach_here. apply (Hf v eq_refl).
+      - intros p v b t Hg Hr _ HR. eapply Good_ref; eauto. apply HR. cbn [enc_child]. apply Reach_here. exact Hg.
+      - intros; constructor.
+      - intros p i c c' t t' _ IHc _ IHt HC HR. inversion HC as [|p0 i0 c0 t0 Hc0 Ht0]; subst. constructor.
+        + apply IHc; auto. intros q w b R. apply (HR 0%nat c q w b); [reflexivity|]. rewrite Nat.add_0_r. exact R.
+        + apply IHt; auto. intros j c1 q w b Hj R. apply (HR (S j) c1 q w b); [exact Hj|]. rewrite Nat.add_succ_r. exact R.
+    Qed.
   End Inv.
 
   (* ---------------------------------------------------------------- handles opened at the head root of a history *)
@@ -817,5 +850,98 @@ Section PW.
     destruct (ops_history_roots name' s' chain' P' v' t' H' I') as [R' W'].
     assert (E : t = t') by (apply canonical_get; auto).
     subst t'. auto.
+  Qed.
+  (* ---------------------------------------------------------------- handles kept across a commit (root-node cache) *)
+  (* muxdb keeps the root node a commit returns (Cache.AddRootNode / trie.FromRootNode): the next handle on that root is
+     the committed working trie itself instead of a reference to it.  It is Good for the new head as well. *)
+  Lemma wstore_root_clean big skip newv (n : wnode) : is_inner V n ->
+    enc_child V (fst (wstore V big skip newv [] n)) = SRef newv.
+  Proof.
+    intros Hin. destruct n; cbn in Hin; try contradiction.
+    - rewrite wstore_short. destruct (if is_dirty_inner V n then _ else _). reflexivity.
+    - rewrite wstore_full. reflexivity.
+  Qed.
+
+  Theorem committed_handle_good name s chain P newv big skip n t :
+    History V name s chain P -> hist_fresh V s name newv -> (P <= fst newv)%N ->
+    match chain with [] => True | vt :: _ => (fst (fst vt) < fst newv)%N end ->
+    Coh V (sget V s name) [] n -> WRes V (sget V s name) [] n t -> is_inner V n ->
+    derived V (sget V s name) chain n ->
+    let s' := commit V s name newv (snd (wstore V big skip newv [] n)) in
+    Good (sget V s' name) (head_old (sget V s' name) ((newv, t) :: chain)) [] (fst (wstore V big skip newv [] n)) t.
+  Proof.
+    intros H Hfr HP Hlt HC HW Hin Hder s'.
+    pose proof (History_Inv V name s chain P H) as HI.
+    assert (H' : History V name s' ((newv, t) :: chain) P) by (apply H_commit; auto).
+    pose proof (History_Inv V name s' _ P H') as HI'.
+    set (g := sget V s name) in *.
+    set (Old := fun q w b => match chain with [] => False | vt :: _ => RR V g (fst vt) q w b end).
+    assert (Old_ne : forall q w b, Old q w b -> w <> newv).
+    { intros q w b O. unfold Old in O. destruct chain as [|vt ch]; [contradiction|].
+      apply (followed_not_fresh V s name (vt :: ch) P newv HI Hfr HP vt (or_introl eq_refl) q w b O). }
+    destruct (wstore_general V s name newv big skip n t Old) as [_ [HC' [HW' _]]]; auto.
+    - intros q w b O. split; [eapply Old_ne; eauto|]. unfold Old in O. destruct chain; [contradiction|]. eapply Reach_get; eauto.
+    - intros q w b q1 w1 b1 O R. unfold Old in *. destruct chain; [contradiction|]. eapply Reach_trans; eauto.
+    - intros q w b O. unfold Old in O. destruct chain as [|vt ch]; [contradiction|].
+      destruct HI as [_ [HF _]]. rewrite Forall_forall in HF. destruct (HF vt (or_introl eq_refl)) as [HRv _].
+      eapply Res_sub; eauto.
+    - intros q w r T. specialize (Hder q w r T). unfold Old. destruct chain; [contradiction|]. exact Hder.
+    - apply (Good_of_coherent (sget V s' name) (head_old (sget V s' name) ((newv, t) :: chain))); auto.
+      intros q w b R. unfold head_old, RR. cbn [fst]. rewrite <- (wstore_root_clean big skip newv n Hin). exact R.
+  Qed.
+
+  (* one block from ANY Good start handle (a reference to the head root, or the node tree a previous commit left): the
+     operations, Trie.Commit; result: the handle the commit returns and the store *)
+  Definition block_from (s : store) (name : N) (w0 : wnode) (newv : ver)
+             (big : wnode -> bool) (skip : bool) (ops : list (hop V)) : option (wnode * store) :=
+    match wt_run V veqb (sget V s name) ops w0 with
+    | Some w =>
+      match wt_commit V (sget V s name) big skip newv w with
+      | Some (w', es) => Some (w', commit V s name newv es)
+      | None => None
+      end
+    | None => None
+    end.
+
+  Lemma commit_ops_block_from s name chain newv big skip ops :
+    commit_ops s name chain newv big skip ops =
+    match block_from s name (head_handle chain) newv big skip ops with Some (_, s') => s' | None => s end.
+  Proof.
+    unfold commit_ops, block_from. destruct (wt_run V veqb (sget V s name) ops (head_handle chain)); [|reflexivity].
+    destruct (wt_commit V (sget V s name) big skip newv w) as [[w' es]|]; reflexivity.
+  Qed.
+
+  Theorem block_from_step name s chain P w0 newv big skip ops :
+    History V name s chain P -> all_wfc chain ->
+    Good (sget V s name) (head_old (sget V s name) chain) [] w0 (head_trie chain) ->
+    hist_fresh V s name newv -> (P <= fst newv)%N ->
+    match chain with [] => True | vt :: _ => (fst (fst vt) < fst newv)%N end ->
+    Forall hop_valid ops -> lrun veqb ops (head_trie chain) <> Nil ->
+    exists w' s', block_from s name w0 newv big skip ops = Some (w', s') /\
+      History V name s' ((newv, lrun veqb ops (head_trie chain)) :: chain) P /\
+      wfc V (lrun veqb ops (head_trie chain)) /\
+      Good (sget V s' name) (head_old (sget V s' name) ((newv, lrun veqb ops (head_trie chain)) :: chain)) [] w'
+           (lrun veqb ops (head_trie chain)).
+  Proof.
+    intros H W G0 Hfr HP Hlt Hv Hne.
+    pose proof (History_Inv V name s chain P H) as HI.
+    set (g := sget V s name) in *. set (Old := head_old g chain) in *.
+    assert (Wt : wfc V (lrun veqb ops (head_trie chain))) by (apply lrun_wfc; auto; apply head_trie_wfc; auto).
+    destruct (wt_run_refines g Old (head_old_get s name chain P HI) (head_old_cl s name chain P HI)
+                (head_old_ok s name chain P HI) ops _ _ G0) as [w [E GW]].
+    destruct (Good_root_inner g Old (head_old_get s name chain P HI) (head_old_cl s name chain P HI)
+                (head_old_ok s name chain P HI) w _ GW Wt Hne) as [r [Er [Gr [Ir _]]]].
+    unfold block_from. fold g. rewrite E, wt_commit_resolve, Er.
+    destruct (wstore V big skip newv [] r) as [r' es] eqn:Ew.
+    assert (Ees : es = snd (wstore V big skip newv [] r)) by (rewrite Ew; reflexivity).
+    assert (Er' : r' = fst (wstore V big skip newv [] r)) by (rewrite Ew; reflexivity).
+    assert (C1 : Coh V g [] r) by (eapply Good_Coh; eauto; apply (head_old_get s name chain P HI)).
+    assert (C2 : WRes V g [] r (lrun veqb ops (head_trie chain))) by (eapply Good_WRes; eauto; apply (head_old_get s name chain P HI)).
+    assert (C3 : derived V g chain r).
+    { intros q w1 b T. destruct (Good_tops g Old _ _ _ Gr q w1 b T) as [b0 Hb].
+      unfold Old, head_old in Hb. destruct chain; [contradiction|eauto]. }
+    exists r', (commit V s name newv es). split; [reflexivity|]. subst es r'.
+    split; [apply H_commit; auto|split; [exact Wt|]].
+    apply (committed_handle_good name s chain P newv big skip r _ H Hfr HP Hlt C1 C2 Ir C3).
   Qed.
 End PW.
